@@ -60,6 +60,12 @@ func VerifyNameErrorNSEC(msg *dns.Msg, nsecSet []dns.RR) error {
 	if covering == nil {
 		return ErrNSECMissingCoverage
 	}
+	// A next name below qname means qname is an empty non-terminal: it
+	// exists, and the interval that "covers" it denies nothing (RFC 4035
+	// §5.4, RFC 8198 Appendix B).
+	if next := covering.NextDomain; !nsecSameName(next, qname) && dnsname.Sub(qname, dns.Fqdn(next)) {
+		return ErrNSECMissingCoverage
+	}
 
 	ce := closestEncloserFromNSEC(qname, covering)
 	if ce == "" {
@@ -81,6 +87,10 @@ func VerifyNameErrorNSEC(msg *dns.Msg, nsecSet []dns.RR) error {
 		}
 	}
 	return ErrNSECMissingCoverage
+}
+
+func nsecSameName(a, b string) bool {
+	return dns.CanonicalName(a) == dns.CanonicalName(b)
 }
 
 // closestEncloserFromNSEC derives the closest encloser of qname from the
